@@ -207,3 +207,102 @@ Proof.
            (pipe_chk_enc algo mb) Hd (pipe_code_dist algo mb Hmb o) mb hlen ms hdr HL (pipe_enc_len algo mb) MS TP).
 Qed.
 Print Assumptions C01_file_header_rs.
+
+(* ------------------------------------------------------------------ *)
+(* C01 at TOOL level (Proofs/StreamRepair.v, Proofs/C01Inst.v): the whole correction run of `pff header` / `pff whole` over
+   an ecc file generated for the tree T, when every protected file is found with its recorded size and every block of it
+   is within the capacity of its stored parity (ecc file pristine; damage to the stored parity / hashes is the subject of
+   C01_block_rs and C01_file_*_rs above).  The run processes every file, counts the corrupted ones all as repaired
+   completely, skips nothing, exits 0; the output folder holds only repaired files, each equal to the original protected
+   content (header tool: + the bytes after the header as found), and holds one for every file that differed.
+   Components: Stream (entry loop, counters, exit status; C03/C08/C13), Entry (intra-ecc; C09), Pipeline (per-block stage;
+   C04/C10), Facade + RS algebra (C02/C11).  One codec hypothesis: completeness of the third-party decoder. *)
+From PFF Require Stream Proofs.StreamP Proofs.StreamRepair Proofs.C03Inst Proofs.C01Inst.
+
+Theorem C01_tool_header_rs :
+  forall (algo : N) (mb : nat), mb <= 255 -> forall hash hlen, (forall m, length (hash m) = hlen) ->
+  forall bdec (o : option byte) fast ik ies, 1 <= ik -> ik + ies <= 255 -> forall idec,
+  PipelineP.dec_complete_hyp (option byte) (pchk algo mb) bdec (penc algo mb) o (pcap mb) (pwf mb) ->
+  forall ms hdr, 1 <= ms <= mb -> 1 <= hlen + (mb - ms) ->
+  let intra := C03Inst.intra_h algo ik ies idec in
+  let fenc := C03Inst.fenc_h algo ik ies in
+  let track := C03Inst.track_h algo mb hash ms hdr in
+  let blocks := C03Inst.blocksH_pipe algo mb hash hlen bdec o fast ms hdr in
+  forall marker delim ignore_size look preamble (T : list (list byte * list byte)) dmg want,
+  marker <> [] ->
+  StreamP.clean_pieces marker (preamble :: map (Stream.gen_entry delim fenc track) T) ->
+  (forall f, In f T ->
+     Stream.prefixb delim (fst f ++ delim) = false /\ StreamP.clean_mid delim (fst f) /\ StreamP.clean_mid delim (StreamP.size_of f) /\
+     StreamP.clean_mid delim (fenc (fst f)) /\ StreamP.clean_mid delim (fenc (StreamP.size_of f))) ->
+  (forall f, In f T -> (N.of_nat (length (snd f)) < 10 ^ 4300)%N) ->
+  (forall f, In f T -> Stream.has_nul (fst f) = false) ->
+  NoDup (map fst T) ->
+  (forall f, In f T -> look (fst f) = Some (dmg f)) ->
+  (forall f, In f T -> C01Inst.found_h algo mb hash o ms hdr (snd f) (dmg f) (want f)) ->
+  exists outs k,
+    Stream.run_h marker delim ignore_size look intra blocks (Stream.generate marker delim fenc track preamble T)
+      = Stream.Done (Stream.mkC (length T) k k 0 0) outs 0 /\ k <= length T /\
+    (forall p b, In (p, b) outs -> exists f, In f T /\ p = fst f /\ b = want f) /\
+    (forall f, In f T -> dmg f <> want f -> In (fst f, want f) outs).
+Proof.
+  intros algo mb Hmb hash hlen HL bdec o fast ik ies K1 K2 idec DC ms hdr MS TP intra fenc track blocks
+         marker delim ignore_size look preamble T dmg want Hm U1 U2 SZ NN ND LK FH.
+  destruct (C01Inst.repair_header algo mb Hmb hash hlen HL bdec o fast ik ies K1 K2 idec DC ms hdr MS TP
+              marker delim ignore_size look preamble T dmg want Hm U1 U2 SZ NN ND LK FH) as (rs & F & E).
+  exact (C01Inst.rel_summary T want _ rs _ F E).
+Qed.
+Print Assumptions C01_tool_header_rs.
+
+Theorem C01_tool_whole_rs :
+  forall (algo : N) (mb : nat), mb <= 255 -> forall hash hlen, (forall m, length (hash m) = hlen) ->
+  forall bdec (o : option byte) fast ik ies, 1 <= ik -> ik + ies <= 255 -> forall idec,
+  PipelineP.dec_complete_hyp (option byte) (pchk algo mb) bdec (penc algo mb) o (pcap mb) (pwf mb) ->
+  forall mu, (forall c, 1 <= mu c <= mb) -> (forall c, 1 <= hlen + (mb - mu c)) -> forall window,
+  let intra := C03Inst.intra_w algo ik ies idec in
+  let fenc := C03Inst.fenc_w algo ik ies in
+  let track := C03Inst.track_w algo mb hash mu in
+  let blocks := C03Inst.blocksW_pipe algo mb hash hlen bdec o fast mu in
+  forall marker delim ignore_size look preamble (T : list (list byte * list byte)) dmg want,
+  marker <> [] ->
+  StreamP.clean_pieces marker (preamble :: map (Stream.gen_entry delim fenc track) T) ->
+  (forall f, In f T ->
+     Stream.prefixb delim (fst f ++ delim) = false /\ StreamP.clean_mid delim (fst f) /\ StreamP.clean_mid delim (StreamP.size_of f) /\
+     StreamP.clean_mid delim (fenc (fst f)) /\ StreamP.clean_mid delim (fenc (StreamP.size_of f))) ->
+  (forall f, In f T -> (N.of_nat (length (snd f)) < 10 ^ 4300)%N) ->
+  (forall f, In f T -> Stream.has_nul (fst f) = false) ->
+  NoDup (map fst T) ->
+  (forall f, In f T -> look (fst f) = Some (dmg f)) ->
+  (forall f, In f T -> C01Inst.found_w algo mb hash o mu (snd f) (dmg f) (want f)) ->
+  (forall f, In f T -> StreamP.meta_len delim (fst f) (StreamP.size_of f) (fenc (fst f)) (fenc (StreamP.size_of f)) <= window) ->
+  exists outs k,
+    Stream.run_w marker delim ignore_size look intra window blocks (Stream.generate marker delim fenc track preamble T)
+      = Stream.Done (Stream.mkC (length T) k k 0 0) outs 0 /\ k <= length T /\
+    (forall p b, In (p, b) outs -> exists f, In f T /\ p = fst f /\ b = want f) /\
+    (forall f, In f T -> dmg f <> want f -> In (fst f, want f) outs).
+Proof.
+  intros algo mb Hmb hash hlen HL bdec o fast ik ies K1 K2 idec DC mu MU TP window intra fenc track blocks
+         marker delim ignore_size look preamble T dmg want Hm U1 U2 SZ NN ND LK FW MF.
+  destruct (C01Inst.repair_whole algo mb Hmb hash hlen HL bdec o fast ik ies K1 K2 idec DC mu MU TP window
+              marker delim ignore_size look preamble T dmg want Hm U1 U2 SZ NN ND LK FW MF) as (rs & F & E).
+  exact (C01Inst.rel_summary T want _ rs _ F E).
+Qed.
+Print Assumptions C01_tool_whole_rs.
+
+(* Non-vacuity of the per-file premise `found_h` (the decoder hypothesis aside): codec 3, blocks of 6 + 4 parity, header 8, a toy
+   4-byte hash; a 10-byte file found with byte 1 changed: two blocks, the first with one wrong symbol (capacity 2). *)
+Definition ex_hash (m : list byte) : list byte := firstn 4 (m ++ repeat x00 4).
+Definition ex_F0 : list byte := [x61; x62; x63; x64; x65; x66; x67; x68; x69; x6a].
+Definition ex_D : list byte := [x61; x7a; x63; x64; x65; x66; x67; x68; x69; x6a].
+Example C01_found_h_example : C01Inst.found_h 3 10 ex_hash None 6 8 ex_F0 ex_D ex_F0.
+Proof.
+  exists [mkb 6 [x61; x7a; x63; x64; x65; x66] (ex_hash [x61; x62; x63; x64; x65; x66]) (penc 3 10 6 [x61; x62; x63; x64; x65; x66]);
+          mkb 6 [x67; x68] (ex_hash [x67; x68]) (penc 3 10 6 [x67; x68])], [x69; x6a].
+  split; [reflexivity|]. split; [|split; [vm_compute; reflexivity|split; reflexivity]].
+  constructor; [|constructor; [|constructor]].
+  - split; [repeat split|]. split; [split; cbn; repeat constructor|]. split.
+    + repeat split; try (vm_compute; reflexivity).
+    + intros H. vm_compute in H. discriminate.
+  - split; [repeat split|]. split; [split; cbn; repeat constructor|]. split.
+    + repeat split; try (vm_compute; reflexivity).
+    + intros _. reflexivity.
+Qed.
